@@ -356,6 +356,20 @@ theorem run_inv (ops : List WOp) : ∀ w : World, Inv w → FramesKeyFun w.ps.ne
       refine ih _ (render_inv w true hi hf.1) ?_
       rw [World.stepWith, render_cmds]; exact hf.2
 
+theorem next_is_drawn (ops : List WOp) : ∀ w : World, (w.run ops).ps.next = drawnSinceClear w.ps.next ops := by
+  induction ops with
+  | nil => intro w; rfl
+  | cons op rest ih =>
+    intro w
+    show ((w.step op).run rest).ps.next = _
+    rw [ih]
+    cases op with
+    | resize id ok => cases ok <;> rfl
+    | draw p => rfl
+    | clear => rfl
+    | render => rfl
+    | refresh => rfl
+
 /-- The terminal a history leaves is the fold of the commands it emitted, in order. -/
 theorem trace_run (ops : List WOp) : ∀ w : World, (w.run ops).term = w.term.run (World.trace w ops) := by
   induction ops with
